@@ -192,6 +192,11 @@ fn c09_compose(lo: i64, hi: i64, seed: u64, out: &mut Out) {
         }
         None => out.fail(format!("compose:{}", t), "panic".into()),
       }
+      // the same for an hour object reached by stepping after its neighbour has been queried (lazily filled fields)
+      out.evaluations += 1;
+      let r = guard(|| { let lh = t.get_lunar_hour(); let _ = (lh.get_solar_time(), lh.get_sixty_cycle_hour()); let n = 1 + (h as isize % 3); let nx = lh.next(n);
+                         let fresh = t.next(7200 * n).get_lunar_hour(); (nx.get_eight_char().to_string(), fresh.get_eight_char().to_string(), nx.get_sixty_cycle_hour().to_string(), fresh.get_sixty_cycle_hour().to_string()) });
+      match r { Some((a, b, c, e)) => if a != b || c != e { out.fail(format!("compose_step:{}", t), format!("stepped hour says {} / a fresh one {}", a, b)); }, None => out.fail(format!("compose_step:{}", t), "panic".into()) }
     }
   }
 }
